@@ -153,3 +153,14 @@ Theorem c04_created_table_is_known_to_later_star : forall noise e base t items f
      map (fun nm => ((tref_str (e_cfg e) t, nm), (tref_str (e_cfg e) x, nm))) (map item_name items)))).
 Proof. exact c04_created_table_known_to_later_star. Qed.
 Print Assumptions c04_created_table_is_known_to_later_star.
+
+(** * Scripts whose statements have EXPRESSION items (Tree/ScriptExactExpr.v: lemma_Bx composed with the composition theorem):
+    any number of INSERT [cols] / CTAS / VIEW statements over one SELECT with star / column / aliased expression items of any
+    depth (resolved references), any order, cycles allowed, any trivia: the pipeline reports exactly spec_script_pairs. *)
+From SV Require Import Tree.RenderExpr Tree.LemmaBExpr Tree.ScriptExactExpr.
+Theorem c04_script_exact_on_core_with_expressions : forall noise e ss,
+  noise_ok noise = true -> env_ok e = true ->
+  Forall (fun s => (stmt_ok_x s = true /\ colshape s = true /\ resolved_x s = true) \/ is_nodata s = true) ss ->
+  script_pairs e false [] (map (r_stmt_x noise) ss) = spec_script_pairs (e_cfg e) ss.
+Proof. exact script_exact_on_core_x. Qed.
+Print Assumptions c04_script_exact_on_core_with_expressions.
